@@ -322,6 +322,69 @@ Definition qobj_proj (self : dims) : outcome :=
   | _ => ORaise TypeError
   end.
 
+(* Qobj.overlap: bras, kets and operators; the Hilbert-space labels of the
+   operator each operand stands for (|psi><psi| for a vector) must agree *)
+Definition state_spaces (d : dims) : option (space * space) :=
+  match dims_type d with
+  | TKet => Some (d_to d, d_to d)
+  | TBra => Some (d_from d, d_from d)
+  | TOper => Some (d_to d, d_from d)
+  | _ => None
+  end.
+Definition qobj_overlap (a b : dims) : outcome :=
+  match state_spaces a, state_spaces b with
+  | Some (r1, c1), Some (r2, c2) =>
+      if space_eqb r1 r2 && space_eqb c1 c2 then ONumberResult else ORaise TypeError
+  | _, _ => ORaise TypeError
+  end.
+
+(* Qobj.matrix_element(bra, ket): bra may be given as a ket *)
+Definition vec_space (d : dims) : option space :=
+  match dims_type d with TKet => Some (d_to d) | TBra => Some (d_from d) | _ => None end.
+Definition qobj_matrix_element (op bra ket : dims) : outcome :=
+  match dims_type op with
+  | TOper =>
+      match vec_space bra, vec_space ket with
+      | Some b, Some k =>
+          if space_eqb b (d_to op) && space_eqb k (d_from op) then ONumberResult
+          else ORaise TypeError
+      | _, _ => ORaise TypeError
+      end
+  | _ => ORaise TypeError
+  end.
+
+(* Qobj.__call__: oper on ket is @; super on oper / ket goes through
+   operator_to_vector (Qobj(dims=[op.dims, [1]], superrep='super')), @, and
+   vector_to_operator (Qobj(dims=op.dims[0])) *)
+Definition qobj_call (tidy : bool) (fuel : nat) (self other : dims) : outcome :=
+  match dims_type self, dims_type other with
+  | TOper, TKet => qobj_matmul self other
+  | TSuper, TOper | TSuper, TKet =>
+      let od := match dims_type other with
+                | TKet => {| d_from := d_to other; d_to := d_to other |}
+                | _ => other end in
+      match dims_of_list tidy fuel [NL (dims_as_list od); NL [NI 1]] (Some RSuper) with
+      | Err e => ORaise e
+      | Ok v =>
+          match qobj_matmul self v with
+          | ODims w =>
+              match dims_type w with
+              | TOperKet =>
+                  if orep_eqb (dims_superrep w) (Some RSuper) then
+                    match dims_of_list tidy fuel (as_list (d_to w)) None with
+                    | Ok d => ODims d
+                    | Err e => ORaise e
+                    end
+                  else ORaise TypeError
+              | _ => ORaise TypeError
+              end
+          | ONumberResult => ORaise TypeError
+          | ORaise e => ORaise e
+          end
+      end
+  | _, _ => ORaise TypeError
+  end.
+
 (* shape of the data a method computes, from the operands' data shapes *)
 Definition shape_matmul (a b : N * N) : N * N := (fst a, snd b).
 Definition shape_swap (a : N * N) : N * N := (snd a, fst a).
